@@ -116,7 +116,7 @@ def run(tier, seed):
         st_h = base_plan([{"admin": False, "blank": False, "hash": False}], 1, "leaf", {"kind": "honest"}); st_h["id"] = "selftest-honest"
         st_r = base_plan([{"admin": False, "blank": False, "hash": False}], 2, "leaf", {"kind": "offset", "k": 2}); st_r["id"] = "selftest-refused"
         plans += [st_h, st_r]
-        trace, blobs, decoded, dec = conn.run_plans(wd, plans, "c01")
+        trace, blobs, decoded, dec = conn.run_plans(wd, plans, "c01", v=v, key="credssp:abort")
         accepted, rejects = core.tv_all("Trace_Rdp", trace, decoded, wd, shards=8, max_rejects=6, overrides=True)
         byid = {p["id"]: p for p in plans}
         for r in rejects:
